@@ -551,6 +551,12 @@ impl Connection {
             if space_id == SpaceId::Data {
                 ack_eliciting |= self.can_send_1rtt(frame_space_1rtt);
             }
+            if close {
+                // A closing packet carries only ACK and CONNECTION_CLOSE frames, whatever else is
+                // queued: it is not ack-eliciting and must not be held back by congestion control
+                // or pacing.
+                ack_eliciting = false;
+            }
 
             pad_datagram_to_mtu |= space_id == SpaceId::Data && self.config.pad_to_mtu;
 
